@@ -34,5 +34,10 @@ def register(R):
     ext["addSkip"]["signature"] = "test, reason=None, details=None"
     ext["addSuccess"]["signature"] = "test, details=None"
     ext["addUnexpectedSuccess"]["signature"] = "test, details=None"
+    # the extended protocol refuses a call that passes neither or both of (err | reason) and details (ExtendedToOriginalDecorator._check_args
+    # raises ValueError): callers must establish it
+    for m in ("addError", "addFailure", "addExpectedFailure"):
+        ext[m]["requires"] = ["(err is None) != (details is None)"]
+    ext["addSkip"]["requires"] = ["(reason is None) != (details is None)"]
     R.shape("ExtResult", **ext)
     R.fields_of("ExtResult", tb_locals="maybe any", shouldStop="any", failfast="any")
